@@ -10,8 +10,9 @@ import subprocess
 import common as C
 
 GOOSE = os.path.join(C.BIN, "goose")
-EXTRA_GO = (("github.com/goose-lang/goose/cmd/goose", "goose", {"tags": "verif"}),)
-EXTRA_GO_RACE = EXTRA_GO + (("github.com/goose-lang/goose/cmd/goose", "goose-race", {"tags": "verif", "race": True}),)
+# the real binaries are built WITHOUT the hook tag: a change that compiles without the hooks must stay checkable
+EXTRA_GO = (("github.com/goose-lang/goose/cmd/goose", "goose", {"tags": "nohooks"}),)
+EXTRA_GO_RACE = EXTRA_GO + (("github.com/goose-lang/goose/cmd/goose", "goose-race", {"tags": "nohooks", "race": True}),)
 ANSI = re.compile(r"\x1b\[[0-9;]*m")
 
 # local stand-in modules: module path -> {relative package dir: {file: content}}
